@@ -69,4 +69,51 @@ theorem C05_issue_fresh (s : State) (r : ReqId) (k : KeyId) (mux : Bool) (c : Co
   exact ⟨{ key := k, token := (tokenOf s k).2, mux := mux, waiter := .idle, inner := .connected, conn := some c },
     by simp, rfl⟩
 
+/-! ## What `pop` throws away -/
+
+/-- **C05 (`pop` accounts for every handle).** The handles it discards, the one it returns and the ones it leaves in
+    the list are together exactly the list it was given, in order: nothing vanishes and nothing is invented. -/
+theorem C05_pop_conserves (s : State) (l : List (ConnId × Nat)) :
+    (idlePop s l).2.2 ++ (idlePop s l).1.toList ++ (idlePop s l).2.1.map (·.1) = l.map (·.1) := by
+  induction l with
+  | nil => simp [idlePop]
+  | cons x rest ih =>
+    obtain ⟨c', at'⟩ := x
+    simp only [idlePop]
+    split
+    · simp
+    · split
+      · simp
+      · generalize idlePop s rest = res at ih
+        obtain ⟨r, l', d⟩ := res
+        simpa using ih
+
+/-- **C05 (only dead connections are discarded).** If nothing in the list has expired, every handle `pop` throws
+    away is a closed connection - a usable idle connection is never dropped on the way to an older one. -/
+theorem C05_pop_drops_only_closed (s : State) (l : List (ConnId × Nat))
+    (hne : ∀ x ∈ l, expired s x.2 = false) : ∀ c ∈ (idlePop s l).2.2, isOpenC s c = false := by
+  induction l with
+  | nil => simp [idlePop]
+  | cons x rest ih =>
+    obtain ⟨c', at'⟩ := x
+    have h0 : expired s at' = false := hne (c', at') (by simp)
+    have ih' := ih (fun y hy => hne y (List.mem_cons_of_mem _ hy))
+    simp only [idlePop]
+    rw [if_neg (by simp [h0])]
+    by_cases hopen : isOpenC s c' = true
+    · simp [hopen]
+    · rw [if_neg hopen]
+      generalize idlePop s rest = res at ih'
+      obtain ⟨r, l', d⟩ := res
+      intro c hc
+      simp only [List.mem_cons] at hc
+      rcases hc with rfl | hc
+      · simpa using hopen
+      · exact ih' c hc
+
+/-- the hypothesis above is met by every list when no (or a zero) idle timeout is configured -/
+theorem C05_no_timeout_drops_only_closed (s : State) (l : List (ConnId × Nat))
+    (h : s.cfg.idleTimeout = none ∨ s.cfg.idleTimeout = some 0) : ∀ c ∈ (idlePop s l).2.2, isOpenC s c = false :=
+  C05_pop_drops_only_closed s l (fun x _ => C05_no_timeout_never_expires s x.2 h)
+
 end Hd.Pool
